@@ -50,7 +50,12 @@ L20 = ["0", "1", "2", "7", "010", "0x1F", "0xFFFFFFFF", "2147483647", "214748364
        "1u", "2U", "3l", "5UL", "7ull", "'a'", "'\\n'", "'\\\\'", "'\\''", "'\\0'"]
 LX = ["00", "0X1f", "0x7fffffff", "0x80000000", "017777777777", "037777777777", "0xffffffffffffffff",
       "0x7FFFFFFFFFFFFFFF", "0x8000000000000000", "9223372036854775807", "4294967296", "1lu", "1LLU",
-      "10uLL", "0l", "0u"]
+      "10uLL", "0l", "0u",
+      "'\\t'", "'\\r'", "'\\v'", "'\\f'", "'\\a'", "'\\b'", "'\\?'", "'~'", "' '"]
+# operands that need more than 53 bits (a float detour loses them) and their small partners
+BIG = ["0x7FFFFFFFFFFFFFFF", "9223372036854775807", "9007199254740993", "9007199254740995", "0x20000000000001",
+       "4611686018427387905", "18446744073709551615u", "0xFFFFFFFFFFFFFFFF", "0x8000000000000001"]
+SMALL = ["1", "2", "3", "7", "1000", "0x1F", "'a'", "4294967296"]
 UNOPS = ["+", "-"]
 BINOPS = ["+", "-", "*", "/", "%", "<<", ">>", "&", "|", "^"]
 PREC = {"*": 11, "/": 11, "%": 11, "+": 10, "-": 10, "<<": 9, ">>": 9, "&": 6, "^": 5, "|": 4}
@@ -133,6 +138,12 @@ def families(ctx):
     s0 += [("U", op, lit(t)) for op in UNOPS for t in allit]
     s0 += [("U", o1, ("U", o2, lit(t))) for o1 in UNOPS for o2 in UNOPS for t in allit]
     fam.append(("S0 literals (%d) with 0..2 unary signs" % len(allit), s0))
+    sx = [("B", op, lit(a), lit(b)) for op in BINOPS for a in BIG for b in SMALL]
+    sx += [("B", op, lit(b), lit(a)) for op in BINOPS for a in BIG for b in SMALL]
+    sx += [("B", op, lit(a), lit(b)) for op in BINOPS for a in BIG for b in BIG]
+    sx += [("B", op, ("U", "-", lit(a)), lit(b)) for op in ("/", "%", "*", ">>") for a in BIG for b in SMALL]
+    fam.append(("S1x all binary operations between %d literals beyond 53 bits and %d small ones (both orders), and "
+                "among the big ones" % (len(BIG), len(SMALL)), sx))
     if ctx.quick:
         s1 = [("B", op, lit(a), lit(b)) for op in BINOPS for a in L20 for b in L20]
         fam.append(("S1 all binary operations over the 20 literals", s1))
@@ -161,7 +172,7 @@ class UB(Exception):
 INT, UINT, LONG, ULONG, LLONG, ULLONG = range(6)
 TNAME = ["int", "unsigned int", "long", "unsigned long", "long long", "unsigned long long"]
 _T = None       # [(rank, signed, bits)] measured by gcc
-ESCAPES = {"n": 10, "t": 9, "r": 13, "0": 0, "\\": 92, "'": 39, '"': 34, "a": 7, "b": 8, "f": 12, "v": 11}
+ESCAPES = {"n": 10, "t": 9, "r": 13, "0": 0, "\\": 92, "'": 39, '"': 34, "a": 7, "b": 8, "f": 12, "v": 11, "?": 63}
 
 
 def types():
